@@ -23,6 +23,7 @@ pub mod extent;
 pub mod fuzzdec;
 pub mod transcript;
 pub mod walk;
+pub mod warm;
 
 pub use bytes::*;
 pub use transcript::{Exp, Transcript, Val};
